@@ -425,6 +425,11 @@ class Walker:
         self.notes = []
         self.inline_depth = 0
         self.root = func
+        self._sc = []          # conditions assumed by short-circuit evaluation at the current expression
+        # the peer operand of a binary sketch method (merge(self, other)): same class as self by contract
+        self.peers = {"other"}
+        if func.cls is not None and not func.is_kernel and func.name == "merge" and len(func.params) == 2:
+            self.peers.add(func.params[1])
         self.inlining = no_inline is not None      # None: every call stays a call event
         self.no_inline = no_inline if no_inline is not None else set()
 
@@ -582,7 +587,11 @@ class Walker:
         return [(st, "return", v)]
 
     def s_Raise(self, s, st):
-        self.emit("raise", s, st)
+        if s.exc is not None:
+            self.ev(s.exc, st)       # the exception object is built first (attribute loads / calls inside it are events)
+        exc = s.exc
+        name = dotted(exc.func) if isinstance(exc, ast.Call) else dotted(exc) if exc is not None else None
+        self.emit("raise", s, st, exc_name=name)
         return [(st, "raise", None)]
 
     def s_Break(self, s, st):
@@ -630,6 +639,7 @@ class Walker:
                 if not (self.P.prove_le0(a.lin - hi, st.facts) and self.P.prove_le0(Lin.const(lo) - a.lin, st.facts)):
                     a = Num(Lin.term(self.fresh("cast", repr(ty), ty.range())), ty=ty)
             env[p] = a
+        env["^caller"] = saved_env        # not a Python name: lets rules see the caller's variables from events inside the callee
         st.env = env
         self.func = callee
         self.inline_depth += 1
@@ -686,8 +696,22 @@ class Walker:
         self.assign(s.target, v, st, s, aug=(s.op, cur, rhs))
         return [(st, "fall", None)]
 
+    def synth_aug(self, old, v):
+        """`x = x + d` / `a[i] = a[i] + d` written out is the same update as `x += d`: (Add, old, d) when new - old does not mention old."""
+        if not (isinstance(old, Num) and isinstance(v, Num)) or old.isfloat != v.isfloat:
+            return None
+        oterms = set(old.lin.terms())
+        if not oterms:
+            return None
+        d = v.lin - old.lin
+        if oterms & set(d.terms()) or not (oterms <= set(v.lin.terms())):
+            return None
+        return (ast.Add(), old, Num(d, isfloat=v.isfloat))
+
     def assign(self, t, v, st, node, aug=None):
         if isinstance(t, ast.Name):
+            if aug is None:
+                aug = self.synth_aug(st.env.get(t.id), v)
             if st.loops:
                 self.emit("assign", node, st, name=t.id, old=st.env.get(t.id), value=v, aug=aug)
             st.env[t.id] = v
@@ -717,6 +741,8 @@ class Walker:
             if full and base.ety is not None and base.ety.kind in ("uint", "int"):
                 old = self.cell(base, idx, st)
             ver = st.memver.get(base.name, 0)
+            if aug is None and old is not None:
+                aug = self.synth_aug(Num(Lin.term(old)), v)
             if full:
                 self.emit("store", node, st, arr=base, idx=idx, value=v, old=old, aug=aug, target=t)
             else:
@@ -760,7 +786,7 @@ class Walker:
         body_outs = self.block(s.body, b0)
         # handlers start from a state that forgot everything the body may have changed
         h0 = st.copy()
-        self.kill(h0, assigned_names(s.body), self.effects.written_in(self.func, s.body))
+        self.kill(h0, assigned_names(s.body), self.root_names(self.effects.written_in(self.func, s.body), st))
         for hi, h in enumerate(s.handlers):
             hs = h0.copy()
             hs.path = hs.path + ((s, ("handler", hi), ("true",)),)
@@ -780,6 +806,9 @@ class Walker:
             outs = fin
         return outs
 
+    def root_names(self, arrays, st):
+        return {(st.env[a].name if isinstance(st.env.get(a), Arr) else a) for a in arrays}
+
     def kill(self, st, names, arrays):
         for n in names:
             v = st.env.get(n)
@@ -787,10 +816,7 @@ class Walker:
                 continue
             if n in st.env:
                 st.env[n] = self.havoc(n, st.env[n])
-        for a in arrays:
-            v = st.env.get(a)
-            if isinstance(v, Arr):
-                a = v.name
+        for a in arrays:      # names as the root knows them (see root_names)
             st.memver[a] = st.memver.get(a, 0) + 1000 + next(self._ids)
 
     def havoc(self, name, old):
@@ -901,6 +927,8 @@ class Walker:
         if isinstance(s, ast.For):
             assigned |= assigned_names([ast.Assign(targets=[s.target], value=ast.Constant(0))])
         written = self.effects.written_in(self.func, body)
+        # arrays are named as the walked root knows them (an inlined callee's parameter denotes the caller's array)
+        written = self.root_names(written, st)
         lp.assigned, lp.written = assigned, written
         entry_env = dict(st.env)
         self.emit("loopstart", s, st, loop=lp, envsnap=dict(st.env))
@@ -1140,12 +1168,15 @@ class Walker:
 
     def e_Attribute(self, e, st):
         d = dotted(e)
+        if d and d.count(".") == 1 and isinstance(e.value, ast.Name) and e.value.id in self.peers and isinstance(e.ctx, ast.Load):
+            # a load from the peer operand of a binary method: which decisions (path + short-circuit context) dominate it
+            self.emit("attrload", e, st, obj=e.value.id, attr=e.attr, sc=tuple(self._sc))
         if d and ("@" + d) in st.env:
             return st.env["@" + d]
         if d and d.count(".") == 1 and isinstance(e.value, ast.Name):
             obj, attr = d.split(".")
             base = st.env.get(obj)
-            if isinstance(base, Opaque) and base.desc in ("self",) or obj in ("self", "other"):
+            if isinstance(base, Opaque) and base.desc in ("self",) or obj == "self" or obj in self.peers:
                 ty = self.attr_types.get(attr)
                 if ty is not None and ty.is_array:
                     return Arr(d, ety=ty.scalar, ndim=ty.ndim, origin="attr")
@@ -1165,6 +1196,9 @@ class Walker:
     e_List = e_Tuple
 
     def e_JoinedStr(self, e, st):
+        for v in e.values:
+            if isinstance(v, ast.FormattedValue):
+                self.ev(v.value, st)
         return Opaque("fstring", e)
 
     def e_Dict(self, e, st):
@@ -1181,8 +1215,15 @@ class Walker:
         return self.opaque_num(("unary", type(e.op).__name__, _vkey(v)), isfloat=getattr(v, "isfloat", False))
 
     def e_BoolOp(self, e, st):
-        cs = [self.as_cond(self.ev(x, st), x) for x in e.values]
-        return Bool(("and" if isinstance(e.op, ast.And) else "or", cs))
+        cs = []
+        isand = isinstance(e.op, ast.And)
+        depth = len(self._sc)
+        for x in e.values:
+            c = self.as_cond(self.ev(x, st), x)
+            cs.append(c)
+            self._sc.append(c if isand else c_not(c))     # the next operand is evaluated only under this
+        del self._sc[depth:]
+        return Bool(("and" if isand else "or", cs))
 
     def e_Compare(self, e, st):
         left = self.ev(e.left, st)
@@ -1219,9 +1260,14 @@ class Walker:
         return ("atom", ("cmp", type(op).__name__, repr(_vkey(a)), repr(_vkey(b))), {"a": a, "b": b, "node": node})
 
     def e_IfExp(self, e, st):
-        self.ev(e.test, st)
+        c = self.cond(e.test, st)
+        self._sc.append(c)
         a = self.ev(e.body, st)
+        self._sc[-1] = c_not(c)
         b = self.ev(e.orelse, st)
+        self._sc.pop()
+        if isinstance(a, Bool) and isinstance(b, Bool):
+            return Bool(("or", [("and", [c, a.cond]), ("and", [c_not(c), b.cond])]))
         fl = getattr(a, "isfloat", False) or getattr(b, "isfloat", False)
         return self.opaque_num(("ifexp", unparse(e)), isfloat=fl)
 
